@@ -485,7 +485,7 @@ def _whole_level_oracle(R, rng, quick):
     import json as _json
     from harness import pipeline
     from neuroglancer_scripts import downscaling
-    n = 20 if quick else 400
+    n = 40 if quick else 500
     for i in range(n):
         d = os.path.join(R.tmp, f"wl{i}")
         os.makedirs(d)
@@ -519,12 +519,26 @@ def _whole_level_oracle(R, rng, quick):
         case = {"whole_level_oracle": True, "shape": shape, "dtype": dt, "channels": nch, "voxel_size": list(vox),
                 "method": method, "outside_value": ov, "storage": store}
         failed = None
+        damage = rng.choice([None] * 5 + ["delete", "truncate"])
+        damaged = None
         for name, args in steps:
+            if name == "compute_scales" and damage:
+                damaged = _damage_one_source_chunk(rng, out, damage)
+                case["source_chunk_damage"] = [damage, damaged]
             rc, so, se = pipeline.run_script(name, args, inprocess=True)
             if rc not in (0, 4):
                 failed = (name, se[-200:])
                 break
         R.case(case, nontrivial=True)
+        if damaged:
+            # a chunk of the full-resolution scale is gone or cut short: the second scale cannot be the
+            # downscaling of the whole first scale, so the tool has to fail
+            n_sc = len(_json.load(open(os.path.join(out, "info")))["scales"])
+            R.count(f"whole-level:source-chunk-{damage}:" + ("error" if failed else "rc0") + f":scales={min(n_sc, 2)}")
+            if not failed and n_sc > 1:
+                R.violation("compute-scales exited 0 although a chunk of the source scale is missing or truncated",
+                            case, {"damaged_file": damaged})
+            continue
         if failed:
             # "If a pair of scales cannot be processed, the tool fails with an error": acceptable
             R.count(f"whole-level:{failed[0]}:error")
@@ -541,12 +555,66 @@ def _whole_level_oracle(R, rng, quick):
             factors = [1 if x == y else 2 for x, y in zip(a["size"], b["size"])]
             want = ds.downscale(scales[a["key"]], factors)
             got = scales[b["key"]]
+            indep = _indep_whole(scales[a["key"]], factors, "average" if method == "auto" else method, ov)
+            if indep.shape != want.shape or indep.tobytes() != np.ascontiguousarray(want).tobytes():
+                R.violation("the package's downscaler applied to the whole previous scale differs from the "
+                            "independent reference for the selected method and outside value", case,
+                            {"from": a["key"], "to": b["key"], "factors": factors,
+                             "voxels_differing": int((indep != want).sum()) if indep.shape == want.shape else -1})
+                break
             if want.shape != got.shape or want.tobytes() != np.ascontiguousarray(got).tobytes():
                 nbad = int((want != got).sum()) if want.shape == got.shape else -1
                 R.violation("a scale differs from the downscaling of the whole previous scale", case,
                             {"from": a["key"], "to": b["key"], "factors": factors, "voxels_differing": nbad,
                              "chunk_sizes": [a["chunk_sizes"][0], b["chunk_sizes"][0]]})
                 break
+
+
+def _indep_whole(prev, factors, method, ov):
+    """Reference for one whole level, written without the package: stride and majority from
+    pyr_common.ref_downscale; averaging pairwise along z, y, x in float64 (exact for integer types
+    up to 32 bits), the last odd slice paired with itself or with the outside value, then round half
+    to even and saturate for integer types."""
+    if method in ("stride", "majority"):
+        return pc.ref_downscale(prev, factors, method)
+    a = prev.astype(np.float64)
+    for axis, f in ((1, factors[2]), (2, factors[1]), (3, factors[0])):
+        if f != 2:
+            continue
+        a = np.moveaxis(a, axis, 0)
+        if a.shape[0] % 2:
+            last = a[-1:] if ov is None else np.full_like(a[-1:], float(ov))
+            a = np.concatenate([a, last], axis=0)
+        a = 0.5 * (a[0::2] + a[1::2])
+        a = np.moveaxis(a, 0, axis)
+    if prev.dtype.kind in "ui":
+        ii = np.iinfo(prev.dtype)
+        return np.clip(np.rint(a), ii.min, ii.max).astype(prev.dtype)
+    return a.astype(prev.dtype)
+
+
+def _damage_one_source_chunk(rng, out, how):
+    import json as _json
+    scales = _json.load(open(os.path.join(out, "info")))["scales"]
+    if len(scales) < 2:
+        return None        # nothing is computed from the source scale
+    key0 = scales[0]["key"]
+    files = []
+    for root, _d, fs in os.walk(os.path.join(out, key0)):
+        files += [os.path.join(root, f) for f in fs]
+    if not files:
+        return None
+    f = rng.choice(sorted(files))
+    if how == "delete":
+        os.unlink(f)
+    else:
+        n = os.path.getsize(f)
+        if n < 2:
+            os.unlink(f)
+        else:
+            with open(f, "r+b") as fh:
+                fh.truncate(n // 2)
+    return os.path.relpath(f, out)
 
 
 def replay(R, payload):
